@@ -43,7 +43,30 @@ pub open spec fn sum_lens(s: Seq<usize>, n: int) -> int decreases n { if n <= 0 
             r is Ok ==> exists|i: int| 0 <= i < self.mappings@.len() && contains_va(#[trigger] self.mappings@[i], vmm_va)
                 && r->Ok_0 == self.mappings@[i].gpa_base + (vmm_va - self.mappings@[i].vmm_addr)
                 && forall|j: int| 0 <= j < i ==> !contains_va(#[trigger] self.mappings@[j], vmm_va), // [C13,C14] gpa_base + (va - user_base) of the FIRST region containing va
+            r is Ok ==> is_translation(self.mappings@, vmm_va, r->Ok_0),
             r is Err ==> forall|i: int| 0 <= i < self.mappings@.len() ==> !contains_va(#[trigger] self.mappings@[i], vmm_va), // [C13] rejected iff no region contains it""")
+    span2 = hnd.impl_span(r'^impl<T: VhostUserBackend> VhostUserBackendReqHandlerMut for VhostUserHandler<T>')
+    sva = u.rw.strip_comments(hnd.fn_body("set_vring_addr", within=span2))
+    u.scan(["C14"], "set_vring_addr_calls", sva.count(".set_queue_info(") == 1 and sva.count(".queue_used_idx()") == 1 and sva.count(".set_queue_next_used(") == 1
+           and sva.index(".set_queue_info(") < sva.index(".queue_used_idx()") < sva.index(".set_queue_next_used("),
+           "set_vring_addr calls set_queue_info, queue_used_idx and set_queue_next_used exactly once each, in that order")
+    u.extracted_fn(hnd, "set_vring_addr", within=span2,
+                   body_rw=[("R6", r'self\s*\.vrings\s*\.get\(index as usize\)\s*\.ok_or\(VhostUserError::InvalidParam\)\?', 'vrings_get(&self.vrings, index as usize)?'),
+                            ("R6", r'\.map_err\(\|e\| VhostUserError::ReqHandlerError\(io::Error::other\(e\)\)\)', '.map_err(|e: VhostUserHandlerError| -> (o: VhostUserError) { wrap_handler_err(e) })'),
+                            ("R6", r'\.map_err\(\|_\| VhostUserError::InvalidParam\)', '.map_err(|e: VirtQueError| -> (o: VhostUserError) { VhostUserError::InvalidParam })'),
+                            ("R6", r'\.map_err\(\|_\| VhostUserError::BackendInternalError\)', '.map_err(|e: VirtQueError| -> (o: VhostUserError) { VhostUserError::BackendInternalError })')],
+                   contract="""
+        requires mappings_ok(old(self).mappings@),
+            // the ring may only be told the translations of the request's addresses, each in its own slot, and the used index read from guest memory
+            (index as int) < old(self).vrings@.len() ==> (
+                forall|g: u64| is_translation(old(self).mappings@, descriptor, g) ==> old(self).vrings@[index as int].exp@.desc == g)
+                && (forall|g: u64| is_translation(old(self).mappings@, available, g) ==> old(self).vrings@[index as int].exp@.avail == g)
+                && (forall|g: u64| is_translation(old(self).mappings@, used, g) ==> old(self).vrings@[index as int].exp@.used == g),
+        ensures
+            (index as int) >= old(self).vrings@.len() ==> r is Err, // [C14] out-of-range ring index rejected
+            old(self).mappings@.len() == 0 ==> r is Err, // [C14]
+            r is Ok ==> (exists|g: u64| is_translation(old(self).mappings@, descriptor, g)) && (exists|g: u64| is_translation(old(self).mappings@, available, g))
+                && (exists|g: u64| is_translation(old(self).mappings@, used, g)), // [C14,C13] accepted only if every address lies in a current region""")
     u.raw("}")
     # ---- C15: page arithmetic, new, mark_dirty
     u.extracted_fn(bmp, "page_number", contract="        ensures r == addr / 4096 // [C15]")
